@@ -14,13 +14,12 @@ evaluator: the original raises, the output does not — outside property C01, wh
 error-free originals), keeps effectful values as statements, regroups partially used declarations
 and removes unused local functions (a closure allocation: not covered by stage 3).
 
-`scopeOK` is the decidable fragment of scopes on which the rule does nothing but drop declarations
-that the link covers: every `local` declaration is either fully used (kept as it is) or fully unused
-with atomic values (literals, identifiers, `...`) and names that are not even syntactically referenced
-afterwards; every local function is used. `scopeG` is the rule's scope hook guarded by `scopeOK`
-(identity elsewhere); `applyG` the rule with that hook. Theorems:
+`dropOK` is the decidable test "this statement is a declaration the rule removes AND the link covers":
+all names unused (the rule's own `FindUsage` answer), no effectful value, all values atomic (literals,
+identifiers, `...`), and the names not even syntactically referenced in the rest of the scope / the
+`until` condition. `scopeG` is the scope hook that performs exactly these removals and leaves every
+other statement alone; `applyG` the rule with that hook (same passes, same loop). Theorems:
 
-* `rewrite_eq_drop`  — on a `scopeOK` scope the rule's rewrite IS the plain drop `dropG`;
 * `hooksHeap`        — the guarded hook rewrites by chains of `dropLocal` links;
 * `applyG_refines`   — `applyG` preserves the observable outcome of EVERY program;
 * `apply_refines_of_agree` — hence so does the rule itself on every program on which it agrees with
@@ -29,146 +28,71 @@ afterwards; every local function is used. `scopeG` is the rule's scope hook guar
 namespace DarkluaModel.Rules.UnusedVariable.Guarded
 open DarkluaModel.Sem DarkluaModel.Sem.Heap DarkluaModel.Rules DarkluaModel.Rules.UnusedVariable
 
-theorem tnames_eq (ns : List TName) : tnames ns = ns.map TName.name := by
-  induction ns with
-  | nil => rfl
-  | cons t ts ih => cases t; simp [tnames, TName.name] at ih ⊢; exact ih
-
-/-- the usage flags the rule computes for a declaration -/
-def usagesOf (last : Option Last) (inExtra : List String) (ns : List TName) (rest : List Stmt) : List Bool :=
-  (tnames ns).map fun id => isUsedAfter id rest last inExtra
-
-/-- is this statement one that the guarded rule drops? -/
-def isDropped (last : Option Last) (inExtra : List String) (s : Stmt) (rest : List Stmt) : Bool :=
-  match s with
-  | .localAssign _ ns _ => !(usagesOf last inExtra ns rest).all id
-  | _ => false
-
-/-- the fragment test for one statement, `rest` = the statements after it -/
-def stmtOK (api : EvalApi) (last : Option Last) (inExtra : List String) (cr : String → Bool) (s : Stmt)
+/-- a declaration that the rule removes (all names unused for `FindUsage`, no effectful value) and that the
+`dropLocal` link covers (atomic values, names not referenced afterwards); `rest` = the statements after it -/
+def dropOK (api : EvalApi) (last : Option Last) (inExtra : List String) (cr : String → Bool) (s : Stmt)
     (rest : List Stmt) : Bool :=
   match s with
   | .localAssign _ ns vs =>
     !ns.isEmpty &&
-    ((usagesOf last inExtra ns rest).all id ||
-      ((usagesOf last inExtra ns rest).all (!·) && (vs.filter api.hasSideEffects).isEmpty && vs.all Expr.isAtom &&
-        (ns.map TName.name).all (fun n => !tailRefs n rest last && !cr n)))
-  | .localFn _ name _ => isUsedAfter name rest last inExtra
-  | _ => true
+    ((tnames ns).map fun id => isUsedAfter id rest last inExtra).all (!·) &&
+    (vs.filter api.hasSideEffects).isEmpty && vs.all Expr.isAtom &&
+    (ns.map TName.name).all (fun n => !tailRefs n rest last && !cr n)
+  | _ => false
 
-def scopeOK (api : EvalApi) (last : Option Last) (inExtra : List String) (cr : String → Bool) : List Stmt → Bool
-  | [] => true
-  | s :: rest => stmtOK api last inExtra cr s rest && scopeOK api last inExtra cr rest
+/-- remove exactly the `dropOK` declarations (the flag records a removal, as the rule does) -/
+def rewriteG (api : EvalApi) (last : Option Last) (inExtra : List String) (cr : String → Bool) :
+    List Stmt → Bool → List Stmt × Bool
+  | [], m => ([], m)
+  | s :: rest, m =>
+    if dropOK api last inExtra cr s rest then rewriteG api last inExtra cr rest true
+    else
+      let (r, m') := rewriteG api last inExtra cr rest m
+      (s :: r, m')
 
-/-- drop the dropped statements -/
-def dropG (last : Option Last) (inExtra : List String) : List Stmt → List Stmt
-  | [] => []
-  | s :: rest => if isDropped last inExtra s rest then dropG last inExtra rest else s :: dropG last inExtra rest
-
-theorem all_id_not_any_not (l : List Bool) (h : l.all id = true) : l.any (!·) = false := by
-  induction l with
-  | nil => rfl
-  | cons b t ih =>
-    simp only [List.all_cons, Bool.and_eq_true, id] at h
-    simp [List.any_cons, h.1, ih h.2]
-
-theorem all_id_not_all_not (l : List Bool) (hne : l ≠ []) (h : l.all id = true) : l.all (!·) = false := by
-  cases l with
-  | nil => exact absurd rfl hne
-  | cons b t =>
-    simp only [List.all_cons, Bool.and_eq_true, id] at h
-    simp [h.1]
-
-/-- on the fragment, the rule's rewrite of a scope is the plain drop (and the flag only grows) -/
-theorem rewrite_eq_drop (api : EvalApi) (last : Option Last) (inExtra : List String) (cr : String → Bool)
-    (ss : List Stmt) (hok : scopeOK api last inExtra cr ss = true) (m : Bool) :
-    (rewriteStmts api last inExtra ss m).1 = dropG last inExtra ss := by
-  induction ss generalizing m with
-  | nil => rfl
-  | cons s rest ih =>
-    simp only [scopeOK, Bool.and_eq_true] at hok
-    obtain ⟨hs, hrest⟩ := hok
-    cases s with
-    | localAssign kind ns vs =>
-      simp only [stmtOK, Bool.and_eq_true, Bool.or_eq_true, Bool.not_eq_true'] at hs
-      obtain ⟨hne, hcase⟩ := hs
-      have hne' : usagesOf last inExtra ns rest ≠ [] := by
-        cases ns with
-        | nil => simp at hne
-        | cons t ts => simp [usagesOf, tnames]
-      rcases hcase with hused | ⟨⟨⟨hunused, hpure⟩, _⟩, _⟩
-      · -- fully used: kept as it is
-        have h1 := all_id_not_all_not _ hne' hused
-        have h2 := all_id_not_any_not _ hused
-        simp only [usagesOf] at h1 h2 hused
-        simp only [rewriteStmts, rewriteLocal, h1, h2, Bool.false_eq_true, if_false, Bool.false_and, dropG, isDropped,
-          usagesOf, hused, Bool.not_true]
-        rw [← ih hrest m]
-      · -- fully unused, no effectful value: removed
-        simp only [usagesOf] at hunused
-        have hnot : ((tnames ns).map fun id => isUsedAfter id rest last inExtra).all id = false := by
-          cases hu : ((tnames ns).map fun id => isUsedAfter id rest last inExtra).all id with
-          | false => rfl
-          | true => rw [all_id_not_all_not _ (by simpa [usagesOf] using hne') hu] at hunused; cases hunused
-        simp only [rewriteStmts, rewriteLocal, hunused, if_true, hpure, dropG, isDropped, usagesOf, hnot, Bool.not_false]
-        exact ih hrest true
-    | localFn kind name body =>
-      have hs' : isUsedAfter name rest last inExtra = true := hs
-      simp only [rewriteStmts, hs', if_true, dropG, isDropped, Bool.false_eq_true, if_false]
-      rw [← ih hrest m]
-    | assign _ _ | cassign _ _ _ | callStmt _ | doBlock _ | function _ _ _ | gfor _ _ _ | nfor _ _ _ _ _
-    | ifs _ _ | repeat_ _ _ | while_ _ _ | typeDecl _ _ _ | typeFn _ _ _ =>
-      simp only [rewriteStmts, dropG, isDropped, Bool.false_eq_true, if_false]
-      rw [← ih hrest m]
-
-/-- the dropped declarations are covered by the `dropLocal` links: a chain in a closed block -/
+/-- the removed declarations are covered by the `dropLocal` links: a chain in a closed block -/
 theorem drop_chain (api : EvalApi) (last : Option Last) (inExtra : List String)
-    (ss : List Stmt) (hok : scopeOK api last inExtra (fun _ => false) ss = true) (pre : List Stmt) :
-    Chain (LkB Cx.none) (.mk (pre ++ ss) last) (.mk (pre ++ dropG last inExtra ss) last) := by
-  induction ss generalizing pre with
+    (ss : List Stmt) (m : Bool) (pre : List Stmt) :
+    Chain (LkB Cx.none) (.mk (pre ++ ss) last) (.mk (pre ++ (rewriteG api last inExtra (fun _ => false) ss m).1) last) := by
+  induction ss generalizing pre m with
   | nil => exact .refl _
   | cons s rest ih =>
-    simp only [scopeOK, Bool.and_eq_true] at hok
-    obtain ⟨hs, hrest⟩ := hok
-    by_cases hd : isDropped last inExtra s rest = true
-    · simp only [dropG, hd, if_true]
+    by_cases hd : dropOK api last inExtra (fun _ => false) s rest = true
+    · simp only [rewriteG, hd, if_true]
       cases s with
       | localAssign kind ns vs =>
-        simp only [isDropped, Bool.not_eq_true'] at hd
-        simp only [stmtOK, hd, Bool.false_or, Bool.and_eq_true, List.all_eq_true, Bool.not_eq_true'] at hs
-        obtain ⟨_, ⟨⟨_, hatoms⟩, hrefs⟩⟩ := hs
-        refine .cons (LkB.dropLocal (TotalPureEs.atoms hatoms) fun n hn => ?_) (ih hrest pre)
+        simp only [dropOK, Bool.and_eq_true, List.all_eq_true, Bool.not_eq_true'] at hd
+        obtain ⟨⟨_, hatoms⟩, hrefs⟩ := hd
+        refine .cons (LkB.dropLocal (TotalPureEs.atoms hatoms) fun n hn => ?_) (ih true pre)
         have := hrefs n hn
         first | exact this.1 | exact this | (simp at this; exact this)
-      | _ => simp [isDropped] at hd
-    · simp only [dropG, hd, Bool.false_eq_true, if_false]
-      have := ih hrest (pre ++ [s])
+      | _ => simp [dropOK] at hd
+    · simp only [rewriteG, hd, Bool.false_eq_true, if_false]
+      have := ih m (pre ++ [s])
       simpa [List.append_assoc] using this
 
 /-- the same for a `repeat` body with its `until` condition -/
 theorem drop_chain_rep (api : EvalApi) (last : Option Last) (inExtra : List String) (c : Expr)
-    (ss : List Stmt) (hok : scopeOK api last inExtra (fun n => c.refs (.ref n)) ss = true) (pre : List Stmt) :
-    Chain (LkRep Cx.none) (.mk (pre ++ ss) last, c) (.mk (pre ++ dropG last inExtra ss) last, c) := by
-  induction ss generalizing pre with
+    (ss : List Stmt) (m : Bool) (pre : List Stmt) :
+    Chain (LkRep Cx.none) (.mk (pre ++ ss) last, c)
+      (.mk (pre ++ (rewriteG api last inExtra (fun n => c.refs (.ref n)) ss m).1) last, c) := by
+  induction ss generalizing pre m with
   | nil => exact .refl _
   | cons s rest ih =>
-    simp only [scopeOK, Bool.and_eq_true] at hok
-    obtain ⟨hs, hrest⟩ := hok
-    by_cases hd : isDropped last inExtra s rest = true
-    · simp only [dropG, hd, if_true]
+    by_cases hd : dropOK api last inExtra (fun n => c.refs (.ref n)) s rest = true
+    · simp only [rewriteG, hd, if_true]
       cases s with
       | localAssign kind ns vs =>
-        simp only [isDropped, Bool.not_eq_true'] at hd
-        simp only [stmtOK, hd, Bool.false_or, Bool.and_eq_true, List.all_eq_true, Bool.not_eq_true'] at hs
-        obtain ⟨_, ⟨⟨_, hatoms⟩, hrefs⟩⟩ := hs
+        simp only [dropOK, Bool.and_eq_true, List.all_eq_true, Bool.not_eq_true'] at hd
+        obtain ⟨⟨_, hatoms⟩, hrefs⟩ := hd
         have h2 : ∀ n ∈ ns.map TName.name, tailRefs n rest last = false ∧ c.refs (.ref n) = false := fun n hn => by
           have := hrefs n hn
           simpa only [Bool.and_eq_true, Bool.not_eq_true'] using this
         exact .cons (LkRep.dropLocal (TotalPureEs.atoms hatoms) (fun n hn => (h2 n hn).1) (fun n hn => (h2 n hn).2))
-          (ih hrest pre)
-      | _ => simp [isDropped] at hd
-    · simp only [dropG, hd, Bool.false_eq_true, if_false]
-      have := ih hrest (pre ++ [s])
+          (ih true pre)
+      | _ => simp [dropOK] at hd
+    · simp only [rewriteG, hd, Bool.false_eq_true, if_false]
+      have := ih m (pre ++ [s])
       simpa [List.append_assoc] using this
 
 /-- which names the `until` condition references -/
@@ -176,11 +100,11 @@ def condRefs : Option Expr → String → Bool
   | some c => fun n => c.refs (.ref n)
   | none => fun _ => false
 
-/-- the rule's `process_scope`, applied only to scopes of the fragment -/
+/-- the guarded `process_scope` -/
 def scopeG (api : EvalApi) : Block → Option Expr → Bool → (Block × Option Expr) × Bool
   | .mk stmts last, extra, m =>
-    if scopeOK api last (usagesInExtra stmts extra) (condRefs extra) stmts then processScope api (.mk stmts last) extra m
-    else ((.mk stmts last, extra), m)
+    let (stmts', m') := rewriteG api last (usagesInExtra stmts extra) (condRefs extra) stmts m
+    ((.mk stmts' last, extra), m')
 
 def processorG (api : EvalApi) : Processor Bool := { scope := scopeG api }
 
@@ -188,26 +112,16 @@ theorem scopeG_none_chain (api : EvalApi) (b : Block) (m : Bool) :
     Chain (LkB Cx.none) b (scopeG api b none m).1.1 := by
   cases b with
   | mk ss last =>
-    simp only [scopeG]
-    split
-    · rename_i hok
-      simp only [processScope]
-      rw [rewrite_eq_drop api last _ _ ss hok m]
-      simpa using drop_chain api last (usagesInExtra ss none) ss (by simpa [condRefs] using hok) []
-    · exact .refl _
+    simp only [scopeG, condRefs]
+    simpa using drop_chain api last (usagesInExtra ss none) ss m []
 
 theorem hooksHeap (api : EvalApi) : HooksHeap Cx.none (processorG api) where
   scopeB := fun b s => scopeG_none_chain api b s
   scopeR := fun b c s => by
     cases b with
     | mk ss last =>
-      simp only [processorG, scopeG]
-      split
-      · rename_i hok
-        simp only [processScope, Option.getD]
-        rw [rewrite_eq_drop api last _ _ ss hok s]
-        simpa using drop_chain_rep api last (usagesInExtra ss (some c)) c ss (by simpa [condRefs] using hok) []
-      · exact .refl _
+      simp only [processorG, scopeG, condRefs, Option.getD]
+      simpa using drop_chain_rep api last (usagesInExtra ss (some c)) c ss s []
 
 /-- one iteration of the rule's loop, with the guarded hook -/
 def passG (api : EvalApi) (b : Block) : Block × Bool :=
